@@ -363,7 +363,7 @@ func init() {
 			if tier == "thorough" {
 				return 6000
 			}
-			return 1500
+			return 3000
 		},
 		ChunkSize: 25,
 		Rule:      "each case is a PRNG-drawn episode: 1-24 persisted publishes (both levels, retained or not, payload 0 B-140 kB) from 1-3 goroutines against the scripted connection, reference broker and instrumented Persistence (a third of the episodes with a Load that hands out the stored slice itself, as the built-in store does; 1 in 6 on VolatileSession, judged on wire, exchanges and deliveries only; 1 in 6 ends with 1-2 stops and AdoptSession followed by new publishes), with a budget of 0-8 connection-fatal faults (write error at a byte offset, zero-progress expiry, blackholed writes, read EOF/reset/expiry, failed dial, refused or missing CONNACK, lost acknowledgement, transient Load/Save/Delete error) plus harmless ones (short writes with expiry, fragmented reads, stalls with progress, withheld acknowledgements); then faults stop and the episode must reach idle. Non-trivial: at least one connection loss while a message was unacknowledged and a resend observed; distinct by the multiset of fault kinds fired and the numbers of connections and messages.",
